@@ -11,6 +11,10 @@ def fstr_tokens(t, sep=' '):
     occurring in literal text."""
     if t[0] == 'const' and isinstance(t[1], str):
         t = ('fstr', (t[1],))
+    from .pysym import str_parts
+    parts_ = str_parts(t)
+    if parts_ is not None:
+        t = ('fstr', tuple(parts_))        # nested templates, + chains and sep.join of a display are one template
     if t[0] != 'fstr':
         raise AnalysisError('not a template: %s' % show(t)[:60])
     tokens = [[]]
